@@ -899,6 +899,11 @@ func unop(fr *frame, instr *ssa.UnOp, x value) value {
 		cur := bp.idx.s
 		return cur.byteVal(cur.bread(bp.seg.buf, len(bp.seg.buf.writes), cur.add(bp.seg.off, bp.idx)))
 	}
+	if instr.Op == token.MUL && fr.i.evlog != nil {
+		if p, ok := x.(*value); ok {
+			fr.i.recordAccess(fr, p, false, instr.Pos(), instr.X)
+		}
+	}
 	switch instr.Op {
 	case token.ARROW: // receive
 		v, ok := fr.i.chanRecv(x.(*gchan))
